@@ -406,7 +406,15 @@ Proof.
   split; assumption.
 Qed.
 
-Lemma insert_inv : forall p F st t, Inv p F st -> (is_mor t = false \/ all_old st = []) ->
+(* asserting t completes no morphism whose domain model already holds an old member tuple *)
+Definition no_old_transport (st : fstate) (t : fact) : Prop :=
+  forall d c r xs, In (d, c) (edges ((g_new st ++ [t]) ++ g_old st)) -> ~ In (d, c) (edges (g_new st ++ g_old st)) ->
+                   ~ In (r, d :: xs) (all_old st).
+
+Lemma pair_dec : forall a b : N * N, {a = b} + {a <> b}.
+Proof. decide equality; apply N.eq_dec. Qed.
+
+Lemma insert_inv_gen : forall p F st t, Inv p F st -> no_old_transport st t ->
   Inv p (F ++ [t]) (f_insert p st t).
 Proof.
   intros p F st t [I1 I2 I3 I4 I5 I6 I7 I8 I9 I10] Hside.
@@ -446,13 +454,22 @@ Proof.
         rewrite !in_app_iff in Hx. cbn [In] in Hx.
         destruct Hx as [[Hx|[Hx|[]]]|Hx]; try (subst x; exact Ht); apply HF; apply I1; unfold stored; tauto.
       * intros rl sigma c Hrl Hsat Hc. specialize (I2 rl sigma c Hrl Hsat Hc). rewrite !in_app_iff in *. tauto.
-      * intros d c r xs Hdc Hin. destruct Hside as [Hside|Hside]; [|rewrite Hside in Hin; contradiction].
-        eapply I3; [|exact Hin]. apply (edges_add_non_mor _ t); [exact Hside|].
-        eapply edges_incl; [|exact Hdc]. intros y Hy. rewrite !in_app_iff in *. cbn [In]. tauto.
+      * intros d c r xs Hdc Hin. destruct (in_dec pair_dec (d, c) (edges (g_new st ++ g_old st))) as [He|He].
+        -- eapply I3; eassumption.
+        -- exfalso. eapply Hside; eassumption.
       * intros x Hx. eapply Reach_mono; [| |apply I4; exact Hx]; [intros y Hy; exact Hy | exact Hmono].
       * intros x Hx. eapply Reach_mono; [| |apply I5; exact Hx]; [intros y Hy; exact Hy | exact Hmono].
       * intros x Hx. rewrite !in_app_iff. cbn [In]. apply in_app_iff in Hx. destruct Hx as [Hx|[Hx|[]]]; [|tauto].
         specialize (I8 x Hx). rewrite !in_app_iff in I8. tauto.
       * intros x Hx. rewrite !in_app_iff in Hx. cbn [In] in Hx.
         destruct Hx as [[Hx|[Hx|[]]]|Hx]; try (subst x; exact Em); apply I9; tauto.
+Qed.
+
+Lemma insert_inv : forall p F st t, Inv p F st -> (is_mor t = false \/ all_old st = []) ->
+  Inv p (F ++ [t]) (f_insert p st t).
+Proof.
+  intros p F st t HI Hside. apply insert_inv_gen; [exact HI|]. intros d c r xs Hdc Hn Hin.
+  destruct Hside as [Hside|Hside]; [|rewrite Hside in Hin; contradiction]. apply Hn.
+  apply (edges_add_non_mor _ t); [exact Hside|].
+  eapply edges_incl; [|exact Hdc]. intros y Hy. rewrite !in_app_iff in *. cbn [In]. tauto.
 Qed.
